@@ -1,6 +1,8 @@
 package main
 
 import (
+	"sync/atomic"
+	"encoding/hex"
 	"bytes"
 	"crypto/sha1"
 	"fmt"
@@ -267,6 +269,61 @@ func c20Handoff(seed uint64, concurrent bool) (string, string) {
 	return a, b
 }
 
+// c20first: the very first use of the package in a fresh process, made by many goroutines at
+// once (lazily initialised package state — decoder, pools — must be ready for every one of
+// them): args = hex blob, its expected dump, a document, goroutines.
+func init() {
+	if len(os.Args) >= 6 && os.Args[1] == "c20first" {
+		blob, _ := hex.DecodeString(os.Args[2])
+		want := os.Args[3]
+		doc, _ := hex.DecodeString(os.Args[4])
+		n, _ := strconv.Atoi(os.Args[5])
+		runtime.GOMAXPROCS(16)
+		var start sync.WaitGroup
+		start.Add(1)
+		var wg sync.WaitGroup
+		var bad int32
+		for i := 0; i < n; i++ {
+			wg.Add(1)
+			go func(i int) {
+				defer wg.Done()
+				start.Wait()
+				if i%2 == 0 {
+					s := simdjson.NewSerializer()
+					pj, err := s.Deserialize(blob, nil)
+					if err != nil {
+						atomic.AddInt32(&bad, 1)
+						return
+					}
+					if d, _ := dumpDoc(pj); d != want {
+						atomic.AddInt32(&bad, 1)
+					}
+				} else {
+					pj, err := simdjson.Parse(doc, nil)
+					if err != nil {
+						atomic.AddInt32(&bad, 1)
+						return
+					}
+					if d, _ := dumpDoc(pj); d != want {
+						atomic.AddInt32(&bad, 1)
+					}
+					s := simdjson.NewSerializer()
+					s.CompressMode(simdjson.CompressBest)
+					if back, err := s.Deserialize(s.Serialize(nil, *pj), nil); err != nil {
+						atomic.AddInt32(&bad, 1)
+					} else if d, _ := dumpDoc(back); d != want {
+						atomic.AddInt32(&bad, 1)
+					}
+				}
+			}(i)
+		}
+		start.Done()
+		wg.Wait()
+		fmt.Printf("DONE goroutines=%d mismatches=%d\n", n, bad)
+		os.Exit(0)
+	}
+}
+
 func init() {
 	if len(os.Args) >= 5 && os.Args[1] == "c20work" {
 		seed, _ := strconv.ParseUint(os.Args[2], 10, 64)
@@ -316,12 +373,39 @@ func init() {
 }
 
 func checkC20(c *Ctx) {
-	c.Ev.Coverage.Rule = "a harness binary built with the Go race detector (-race) runs N goroutines (2, 8, 32, 64), each a seeded random sequence (digest of everything observed, serialized bytes included) of Parse (both sides of the 8 KiB threshold, with per-goroutine reuse), ParseND, ParseNDStream, traversal, Clone+edit+marshal, Serialize/Deserialize in all modes on its OWN objects, under GOMAXPROCS 1..16; each goroutine's digest of everything it observed is compared with the same sequence run alone; plus clone hand-offs: clones made with Clone(nil)/Clone(&zero)/Clone(earlier clone) are edited, read and deserialized into by a second goroutine while the first keeps parsing into and editing the original; any race-detector report or digest mismatch is a violation. non-trivial = concurrent run completed; distinct = by (seed, N, GOMAXPROCS)"
+	c.Ev.Coverage.Rule = "a harness binary built with the Go race detector (-race) runs N goroutines (2, 8, 32, 64), each a seeded random sequence (digest of everything observed, serialized bytes included) of Parse (both sides of the 8 KiB threshold, with per-goroutine reuse), ParseND, ParseNDStream, traversal, Clone+edit+marshal, Serialize/Deserialize in all modes on its OWN objects, under GOMAXPROCS 1..16; each goroutine's digest of everything it observed is compared with the same sequence run alone; plus clone hand-offs: clones made with Clone(nil)/Clone(&zero)/Clone(earlier clone) are edited, read and deserialized into by a second goroutine while the first keeps parsing into and editing the original; the first use of the package in a fresh process made by 16 goroutines at once (25 processes); any race-detector report or digest mismatch is a violation. non-trivial = concurrent run completed; distinct = by (seed, N, GOMAXPROCS)"
 	race := filepath.Join(c.Verif, "build", "vcheck_race")
 	if _, err := os.Stat(race); err != nil {
 		c.Ev.Note("race-enabled harness binary missing: " + err.Error())
 		c.Violate("infrastructure", "cannot run the race-detector build", "c20-norace", map[string]interface{}{})
 		return
+	}
+	// first use of the package in a fresh process by 16 goroutines at once
+	{
+		doc := []byte(`{"a":["first","use"],"b":{"c":1.5,"d":[true,null,"` + strings.Repeat("z", 300) + `"]}}`)
+		if out := implParse(doc, false, true, nil); !out.Err {
+			want, _ := dumpDoc(out.PJ)
+			ser := simdjson.NewSerializer()
+			ser.CompressMode(simdjson.CompressBest)
+			blob := ser.Serialize(nil, *out.PJ)
+			for k := 0; k < c.N(25, 200); k++ {
+				cmd := exec.Command(race, "c20first", fmt.Sprintf("%x", blob), want, fmt.Sprintf("%x", doc), "16")
+				cmd.Env = append(os.Environ(), "GORACE=halt_on_error=0 exitcode=0")
+				var ob, eb bytes.Buffer
+				cmd.Stdout, cmd.Stderr = &ob, &eb
+				err := cmd.Run()
+				c.Ev.Count("first-use-concurrently", []byte(fmt.Sprint(k)), true)
+				info := map[string]interface{}{"history": "16 goroutines make the first NewSerializer/Deserialize/Parse calls of a fresh process at once", "stdout": trunc(ob.String(), 300), "stderr": trunc(eb.String(), 1500), "error": fmt.Sprint(err)}
+				if strings.Contains(eb.String(), "DATA RACE") {
+					c.Violate("race", "the race detector reported a data race during the first concurrent use of the package", "c20-first-race", info)
+					break
+				}
+				if err != nil || !strings.Contains(ob.String(), "mismatches=0") {
+					c.Violate("crash", "the first concurrent use of the package in a fresh process crashed or gave wrong results", "c20-first-crash", info)
+					break
+				}
+			}
+		}
 	}
 	type cfg struct{ n, nops, procs int }
 	cfgs := []cfg{{2, 30, 2}, {8, 20, 4}, {32, 10, 16}, {64, 6, 16}, {8, 20, 1}, {16, 12, 2}}
